@@ -147,7 +147,7 @@ func min2(a, b int) int {
 	return b
 }
 
-func (m zvC20Msg) bytes(addPath bool) []byte {
+func (m zvC20Msg) bytes(addPath bool, ibgp ...bool) []byte {
 	pick := func(tab []zvwPrefix, idx []int, ids []uint32) []zvwPrefix {
 		var out []zvwPrefix
 		for i, x := range idx {
@@ -160,6 +160,9 @@ func (m zvC20Msg) bytes(addPath bool) []byte {
 		return out
 	}
 	attrs := []zvwAttr{zvwOrigin(0), zvwASPath(true, zvRemoteAS)}
+	if len(ibgp) > 0 && ibgp[0] {
+		attrs = append(attrs, zvwLocalPref(100)) // an internal peer sends LOCAL_PREF (the same in every message)
+	}
 	if m.Rich {
 		attrs = append(attrs,
 			zvwAttr{0xc0, 8, []byte{0xfd, 0xe8, 0, 1, 0xfd, 0xe8, 0, 2}},
@@ -221,6 +224,7 @@ type zvC20Cfg struct {
 	Name    string
 	AddPath bool
 	IPv6    bool
+	IBGP    bool // internal session: LOCAL_PREF comes with the message instead of being defaulted on receipt
 }
 
 type zvC20Case struct {
@@ -270,7 +274,7 @@ func zvC20Step(r *vh.Run, cfg zvC20Cfg, alphabet []zvC20Msg, hist []zvC20Msg) (s
 	famCfg := map[int]bool{4: true, 6: cfg.IPv6}
 	okState := true
 	x := vsched.Exec(vsched.Config{MaxSteps: 100000}, func() {
-		s := zvSessStart(zvSessCfg{Name: "c20", A: zvPeerOpts{Addr: 9, Hold: 90 * time.Second, IPv6: cfg.IPv6, AddPathRX: cfg.AddPath}})
+		s := zvSessStart(zvSessCfg{Name: "c20", A: zvPeerOpts{Addr: 9, Hold: 90 * time.Second, IPv6: cfg.IPv6, AddPathRX: cfg.AddPath, IBGP: cfg.IBGP}})
 		s.apply(evT15)
 		s.apply(evOpen)
 		s.apply(evKA)
@@ -279,7 +283,7 @@ func zvC20Step(r *vh.Run, cfg zvC20Cfg, alphabet []zvC20Msg, hist []zvC20Msg) (s
 			return
 		}
 		for _, m := range hist {
-			s.cA.deliver(m.bytes(cfg.AddPath))
+			s.cA.deliver(m.bytes(cfg.AddPath, cfg.IBGP))
 			vsched.Settle()
 			m.apply(model, cfg.AddPath, famCfg)
 		}
@@ -339,9 +343,10 @@ func TestVerifC20(t *testing.T) {
 		depth = 3
 	}
 	r.Rule(fmt.Sprintf("BFS to depth %d over an alphabet of valid UPDATEs (1-3 NLRI incl. a repeated prefix, 0-2 withdrawals, classic IPv4 and MP IPv6, distinct/equal/permuted path identifiers with add-path) per session configuration "+
-		"{add-path RX on/off} x {IPv4 only, IPv4+IPv6}; after every message Adj-RIB-In == map model keyed (family, prefix, path id)", depth))
+		"{add-path RX on/off} x {IPv4 only, IPv4+IPv6} on an external session, plus two internal sessions (LOCAL_PREF sent by the peer); after every message Adj-RIB-In == map model keyed (family, prefix, path id)", depth))
 	r.Require("multi_nlri_announce", "withdraw", "multiprotocol")
-	cfgs := []zvC20Cfg{{"v4v6", false, true}, {"v4v6-addpath", true, true}, {"v4only", false, false}, {"v4only-addpath", true, false}}
+	cfgs := []zvC20Cfg{{"v4v6", false, true, false}, {"v4v6-addpath", true, true, false}, {"v4only", false, false, false}, {"v4only-addpath", true, false, false},
+		{"ibgp-v4v6-addpath", true, true, true}, {"ibgp-v4only", false, false, true}}
 	if r.IsReplay() {
 		var c zvC20Case
 		r.ReplayCase(&c)
